@@ -605,7 +605,8 @@ TYPED_TO_DEC = [True, False, None] + list(R.ALL_ERRORS) + [
     0, 1, 10, 11, 101, 777, 1234567, 99, 1111111111, 7777777777, 9999999999, 11111111111, 2, 8, 12, 19,
     -1, -11, -101, 100000000000, 10 ** 15,
     0.0, 1.0, 101.0, 777.0, 1111111111.0, 1e10, 1.5, 101.5, 0.1, -1.0, 1e15, 1e16, 1e300, 1e-5, 7777777777.0]
-DEC_TEXTS = ['5', '-5', ' 5', '5 ', ' -5 ', '+5', '5.5', '-5.5', '5.', '.5', '1e2', '1E2', '1e-1', '1_0',
+DEC_TEXTS = ['1' * 5000, '-' + '9' * 4400,      # (python's int() refuses more than 4300 digits with a ValueError)
+             '5', '-5', ' 5', '5 ', ' -5 ', '+5', '5.5', '-5.5', '5.', '.5', '1e2', '1E2', '1e-1', '1_0',
              '1__0', '_1', '1_', '-1_0', '１０', '٥', '0x1F', '0b1', '0o17', '0X1f', 'abc', 'A',
              'FF', '1,000', '', ' ', '5 5', '--5', '1.5.2', '$5', '5%', 'TRUE', '1e', 'e1', 'nan', 'inf']
 
